@@ -289,7 +289,15 @@ func runC07(c *core.Ctx, o Options) {
 	}
 	c.Extra["entry_points"] = len(roots)
 	c.Extra["paths"] = nTraces
-	c.RuleMin = map[string]int{"G1": 14, "G2": 8, "G3": 2, "census": 12}
+	// G4: a message that cannot be decoded gets its Reject and nothing else happens — a damaged Logon that is rejected and then
+	// processed all the same would log the session on (answer, timers, heartbeats) without a valid Logon
+	for _, kind := range adminKinds {
+		if fn := s.one(true, kind); fn != nil {
+			s.checkParseErrorPaths("G4", kind, fn, s.tr.Traces(fn, s.m.AllStates))
+		}
+	}
+	c.Explanation += " G4 (= C16.J1): on every path of an administrative handler on which Unmarshal failed there is exactly one Reject built from the raw bytes and nothing else — a damaged Logon that is rejected and then processed all the same would start the session without a valid Logon."
+	c.RuleMin = map[string]int{"G1": 14, "G2": 8, "G3": 2, "census": 12, "G4": 5}
 	c.MinObl = 20
 }
 
